@@ -1136,8 +1136,58 @@ def retries_ctor_and_env_stream(ctx, res):
                             "default took its place at construction or after a load, and a re-save then wrote it over the stored secret)",
                             dict(case, at_construction=at_build, after_load=after_load, after_resave=resaved))
 
+def falsy_parent_stream(ctx, res):
+    """A config-type SUBCLASS may define `__len__` / `__bool__`: a configuration that tests false is still the parent of what is below
+    it — a secret below it is sealed with the key file of its nearest ancestor that names one (the root's), not with the default
+    key file, and the default key file is not created"""
+    import base64
+    import cincoconfig as cc
+    from cincoconfig.encryption import KeyFile, SecureValue
+    tmp = ctx.tmpdir()
+    default = cc.Config.DEFAULT_CINCOKEY_FILEPATH
+    pool_schema = cc.Schema()
+    pool_schema.members = cc.ListField(cc.StringField(), default=lambda: [])
+    pool_schema.auth.token = cc.SecureField(method="aes")
+    pool_schema.secret = cc.SecureField(method="xor")
+
+    class Pool(cc.ConfigType):
+        __schema__ = pool_schema
+
+        def __len__(self):
+            return len(self.members)
+    s = cc.Schema()
+    s.lb.pool = Pool
+    for k, filled in enumerate((False, True)):
+        kp = os.path.join(tmp, "falsy-parent-%d.key" % k)
+        default_before = open(default, "rb").read() if os.path.exists(default) else None
+        cfg = s(key_filename=kp)
+        if filled:
+            cfg.lb.pool.members.append("m1")
+        cfg.lb.pool.auth.token = "token-below-a-pool"
+        cfg.lb.pool.secret = "secret-in-a-pool"
+        case = {"stream": "falsy-parent", "pool_is_empty": not filled}
+        res.case(stable(case), kind="falsy-parent")
+        try:
+            tree = cfg.to_tree()
+            outs = {}
+            for label, stored in (("lb.pool.auth.token", tree["lb"]["pool"]["auth"]["token"]), ("lb.pool.secret", tree["lb"]["pool"]["secret"])):
+                try:
+                    with KeyFile(kp) as kf:
+                        outs[label] = kf.decrypt(SecureValue(stored["method"], base64.b64decode(stored["ciphertext"]))).decode()
+                except Exception as e:  # noqa
+                    outs[label] = "raised %s" % type(e).__name__
+        except Exception as e:  # noqa
+            outs = {"to_tree": "raised %s: %s" % (type(e).__name__, str(e)[:60])}
+        if outs != {"lb.pool.auth.token": "token-below-a-pool", "lb.pool.secret": "secret-in-a-pool"}:
+            res.violate("C03:wrong-key-file:falsy-parent", "a secret below a configuration that tests false (a config type defining __len__) does not open with the root's key file",
+                        dict(case, opened=outs))
+        default_after = open(default, "rb").read() if os.path.exists(default) else None
+        if default_after != default_before:
+            res.violate("C03:other-key-file-created", "the default key file was created / changed although the root names a key file", case)
+
 def run(ctx, n_quick=150, n_thorough=4000):
     res = Result()
+    guard(res, "C03", falsy_parent_stream, ctx, res)
     guard(res, "C03", retries_ctor_and_env_stream, ctx, res)
     guard(res, "C03", rehome_stream, ctx, res, ctx.n(30, 800))
     guard(res, "C03", history_stream, ctx, res)
